@@ -64,6 +64,57 @@ import sys; sys.exit(1 if bad else 0)
 '''
 
 
+def _dv(a, b):
+    return a // b if isinstance(a, int) else a / b
+
+
+def days_from_civil(y, m, d):
+    """days since 1970-01-01 of the proleptic Gregorian date y-m-d (ints or z3 terms; y >= 1970)"""
+    if isinstance(m, int):
+        yy = y - (1 if m <= 2 else 0); mp = m - 3 if m > 2 else m + 9
+    else:
+        yy = y - z3.If(m <= 2, 1, 0); mp = z3.If(m > 2, m - 3, m + 9)
+    era = _dv(yy, 400); yoe = yy - era * 400
+    doy = _dv(153 * mp + 2, 5) + d - 1
+    doe = yoe * 365 + _dv(yoe, 4) - _dv(yoe, 100) + doy
+    return era * 146097 + doe - 719468
+
+
+def calendar_claim(Y, Mo, Dd, hh, mi, ss, sec):
+    leap = z3.And(Y % 4 == 0, z3.Or(Y % 100 != 0, Y % 400 == 0))
+    dim = z3.If(Mo == 2, z3.If(leap, 29, 28), z3.If(z3.Or(Mo == 4, Mo == 6, Mo == 9, Mo == 11), 30, 31))
+    return z3.And(Y >= 1970, Y <= 9999, Mo >= 1, Mo <= 12, Dd >= 1, Dd <= dim, hh >= 0, hh < 24, mi >= 0, mi < 60, ss >= 0, ss < 60,
+                  days_from_civil(Y, Mo, Dd) * 86400 + hh * 3600 + mi * 60 + ss == sec)
+
+
+def calendar_spec_selftest(seed):
+    """the characterisation agrees with CPython's datetime on seeded and boundary seconds"""
+    import datetime, random as _r
+    rng = _r.Random(seed)
+    secs = [0, 86399, 86400, 951782400, 951868799, 4107542400, 4107456000, 253402300799] + [rng.randrange(0, 253402300800) for _ in range(3000)]
+    for s_ in secs:
+        t = datetime.datetime(1970, 1, 1) + datetime.timedelta(seconds=s_)
+        if days_from_civil(t.year, t.month, t.day) * 86400 + t.hour * 3600 + t.minute * 60 + t.second != s_: return False
+    return True
+
+
+CAL_REPLAY = '''
+from vlib import build
+import ctypes, datetime, sys
+lib = build.clib()
+bad = 0
+for (k, n, d) in %r:
+    o = [ctypes.c_int() for _ in range(6)]; ps = ctypes.c_uint64()
+    r = lib.digital_rf_get_unix_time_rational(ctypes.c_uint64(k), ctypes.c_uint64(n), ctypes.c_uint64(d), *[ctypes.byref(x) for x in o], ctypes.byref(ps))
+    sec = k * d // n
+    t = datetime.datetime(1970, 1, 1) + datetime.timedelta(seconds=sec)
+    got = tuple(x.value for x in o); want = (t.year, t.month, t.day, t.hour, t.minute, t.second)
+    print('index', k, 'rate %%d/%%d' %% (n, d), 'second', sec, 'C:', got, 'calendar:', want)
+    if r != 0 or got != want: bad = 1
+sys.exit(1 if bad else 0)
+'''
+
+
 def main(tier):
     rep = common.Report('C03', tier, 'proof', functions=FUNCS)
     st = smt.Stats()
@@ -219,7 +270,17 @@ def main(tier):
         rep.outside_claim('monotone / inverse law for %d extra rates whose linear twin was not decided within 20 s: %s' % (len(skipped), ', '.join(skipped[:8])))
 
     # ------------------------------------------------------------------ get_unix_time_rational: glue
-    ex3 = Exec(mod, stubs)
+    tp = mod.funcs.get('@digital_rf_get_time_parts')
+    own_calendar = tp is not None and not any('@gmtime' in ins.text for blk in tp.blocks.values() for ins in blk)
+    summ = {}
+    if own_calendar:
+        # the calendar breakdown is the code's own arithmetic (no libc gmtime): decided separately below; here it is a recording stand-in
+        def tp_summary(e, sec_, *ptrs):
+            vals = [e.fresh('cal%d' % i, 31) for i in range(6)]
+            for p_, v_ in zip(ptrs, vals): e.store(p_, v_)
+            e.events.append(('time_parts', sec_, vals)); return 0
+        summ['@digital_rf_get_time_parts'] = tp_summary
+    ex3 = Exec(mod, stubs, summ)
     g, n3, d3 = z3.Ints('g n3 d3')
     paths = []
     def setup(e):
@@ -233,12 +294,20 @@ def main(tier):
         outs = e.user['outs']
         gm = [x for x in e.events if x[0] == 'gmtime']
         _, sec_ref, ps_ref = run_floor(e, g, n3, d3)        # same path, same inputs: reference outputs of the floor kernel
+        tpe = [x for x in e.events if x[0] == 'time_parts']
+        if not gm and tpe:
+            ok = len(tpe) == 1 and e.valid(tpe[0][1] == sec_ref) and e.valid(e.peek(outs[6], ()) == ps_ref) and e.valid(ret == 0) and \
+                all(e.valid(e.peek(outs[i], ()) == tpe[0][2][i]) for i in range(6))
+            paths.append((status, ret, ok)); return
         ok = len(gm) == 1 and e.valid(gm[0][1] == sec_ref) and e.valid(e.peek(outs[6], ()) == ps_ref) and e.valid(ret == 0)
         if ok:
             tm = e.mem[[r_ for r_ in e.mem if r_.startswith('tm#')][0]]['cells']
             ok = all(e.valid(e.peek(outs[i], ()) == tm[(j,)] + off) for i, j, off in
                      [(0, 5, 1900), (1, 4, 1), (2, 3, 0), (3, 2, 0), (4, 1, 0), (5, 0, 0)])
         paths.append((status, ret, ok))
+    cal_bad = []
+    if not calendar_spec_selftest(rep.seed):
+        rep.ob('calendar characterisation agrees with CPython datetime', 'inconclusive', detail='spec self-test failed')
     try:
         npth = ex3.explore('@digital_rf_get_unix_time_rational', setup, on_path)
         allok = bool(paths) and all(p[2] for p in paths)
@@ -247,6 +316,34 @@ def main(tier):
     except Inconclusive as e:
         rep.ob('unix_time_rational glue', 'inconclusive', detail=str(e))
 
+    if own_calendar:
+        # digital_rf_get_time_parts executed on its own with the second symbolic: pure linear arithmetic
+        exc_ = Exec(mod, stubs); sec_ = z3.Int('unix_second'); cres = []
+        def csetup(e):
+            e.assume(z3.And(sec_ >= 0, sec_ < 253402300800))
+            e.user['outs'] = [e.new_region(nm) for nm in ('year', 'month', 'day', 'hour', 'minute', 'second')]
+            return [sec_] + [Ptr(o) for o in e.user['outs']]
+        def con_path(e, status, ret):
+            if status != 'ret': cres.append(('bad', smt.mval(e.model(), sec_))); return
+            vals = [e.peek(o_, ()) for o_ in e.user['outs']]
+            if any(v is None or isinstance(v, Ptr) for v in vals): cres.append(('unknown', None)); return
+            Y, Mo, Dd, hh, mi, ss = [e.signed(v, 32) if not isinstance(v, int) else v for v in vals]
+            claim = z3.And(ret == 0, calendar_claim(Y, Mo, Dd, hh, mi, ss, sec_))
+            r_, m_, _dt = smt.prove(list(e.pc), claim, (), 120, st)
+            cres.append(('ok', None) if r_ == 'unsat' else (('bad', smt.mval(m_, sec_)) if r_ == 'sat' and m_ is not None else ('unknown', None)))
+        title = 'digital_rf_get_time_parts (own calendar arithmetic, no libc gmtime): fields are the valid proleptic Gregorian date and time of day whose second count is the argument'
+        try:
+            npc = exc_.explore('@digital_rf_get_time_parts', csetup, con_path)
+            badc = [c_[1] for c_ in cres if c_[0] == 'bad' and c_[1] is not None]
+            if badc:
+                rep.violation(title, 'C03.calendar', 'calendar breakdown wrong at second(s) %s' % (badc[:4],), replay_body=CAL_REPLAY % ([(x_, 1, 1) for x_ in badc[:6]],), queries=exc_.nq, solver_s=exc_.tq, paths=npc,
+                              bounds='every second from 1970 to year 9999')
+            elif not cres or any(c_[0] != 'ok' for c_ in cres):
+                rep.ob(title, 'inconclusive', detail=str(cres)[:300])
+            else:
+                rep.ob(title, 'discharged', 'every second from 1970 to year 9999', exc_.nq, exc_.tq, npc)
+        except Inconclusive as e_:
+            rep.ob(title, 'inconclusive', detail=str(e_))
     from checks import extglue
     extglue.run_unix_time(rep, st, tier)
 
